@@ -109,7 +109,7 @@ impl FInput {
 pub fn float_inputs(seed: u64, count: usize, nmax: usize, dims: &[usize]) -> Vec<FInput> {
     let mut rng = StdRng::seed_from_u64(seed.wrapping_mul(0x9E3779B97F4A7C15) ^ 0xF00D);
     let mut out = vec![];
-    let kinds = ["uniform", "cluster", "nearlattice", "lattice", "tiny", "aniso", "offset", "shell", "aniso", "ring", "onwall", "micro", "mega", "pairs", "fcc", "bcc"];
+    let kinds = ["uniform", "cluster", "nearlattice", "lattice", "tiny", "aniso", "offset", "shell", "prism", "ring", "onwall", "micro", "mega", "pairs", "fcc", "bcc"];
     let mut aniso_round = 0usize;
     let mut k = 0;
     while out.len() < count {
@@ -147,7 +147,7 @@ pub fn float_inputs(seed: u64, count: usize, nmax: usize, dims: &[usize]) -> Vec
             }
             _ => {}
         }
-        let dim = if kind == "fcc" || kind == "bcc" { 3 } else if kind == "aniso" || kind == "shell" || kind == "ring" { if kind == "ring" && rng.gen_bool(0.3) { 2 } else { 3 } } else { dim };
+        let dim = if kind == "fcc" || kind == "bcc" || kind == "prism" { 3 } else if kind == "aniso" || kind == "shell" || kind == "ring" { if kind == "ring" && rng.gen_bool(0.3) { 2 } else { 3 } } else { dim };
         let n = match kind {
             "tiny" => rng.gen_range(1..=4),
             _ => rng.gen_range(2..=nmax),
@@ -230,6 +230,28 @@ pub fn float_inputs(seed: u64, count: usize, nmax: usize, dims: &[usize]) -> Vec
                     let jit = 1.0 + 0.02 * rng.gen_range(-1.0..1.0);
                     let d = DVec3::new(r * phi.cos(), r * phi.sin(), z) * 0.3 * wmin * jit;
                     gens.push(anchor + c * width + d);
+                }
+            }
+            "prism" => {
+                // a generator inside a ring of 36..48 neighbours; then, FARTHER away, one above and one below (each cuts off a whole
+                // end of the prism: more than 32 vertices removed by one clip), then a few more a little farther still, in gaps of
+                // the ring and obliquely (clips that come after the big ones and touch planes the big ones did not)
+                let m = rng.gen_range(36..=48);
+                let c = DVec3::splat(0.5);
+                let wmin = width.min_element();
+                gens.push(anchor + c * width);
+                for i in 0..m {
+                    let phi = (i as f64 + rng.gen_range(-0.2..0.2)) * std::f64::consts::TAU / m as f64;
+                    let r = 0.25 * (1.0 + 0.01 * rng.gen_range(-1.0..1.0));
+                    gens.push(anchor + c * width + DVec3::new(phi.cos(), phi.sin(), 0.0) * r * wmin);
+                }
+                gens.push(anchor + c * width + DVec3::Z * 0.30 * wmin);
+                gens.push(anchor + c * width - DVec3::Z * 0.31 * wmin);
+                for _ in 0..rng.gen_range(2..=4) {
+                    let phi = rng.gen_range(0.0..std::f64::consts::TAU);
+                    let z: f64 = rng.gen_range(-0.2..0.2);
+                    let r: f64 = rng.gen_range(0.32..0.36);
+                    gens.push(anchor + c * width + DVec3::new(phi.cos() * (1.0 - z * z).sqrt(), phi.sin() * (1.0 - z * z).sqrt(), z) * r * wmin);
                 }
             }
             "ring" => {
@@ -997,6 +1019,64 @@ pub fn main_tess(args: &[String]) -> i32 {
                 if samples.len() < 2 && mi == 2 {
                     samples.push(json!({"input": inp.to_json(), "mask": m}));
                 }
+            }
+        }
+    }
+    // ---- one LARGE, strongly multi-scale input (20 000 generators in a small cube + 60 isolated ones, interleaved in index
+    // order): size thresholds on the number of generators, state carried from one cell to the next inside a job.  Checked in
+    // the harness only (measures sum to the box, safety radius reaches the nearest neighbour) - too large to record for TLC.
+    if inputs_from_file.is_none() {
+        let mut r3 = StdRng::seed_from_u64(seed ^ 0xB165CA1E);
+        let n_small = 20000usize;
+        let n_iso = 60usize;
+        let mut gens: Vec<DVec3> = (0..n_small)
+            .map(|_| DVec3::new(r3.gen_range(0.45..0.55), r3.gen_range(0.45..0.55), r3.gen_range(0.45..0.55)))
+            .collect();
+        let mut iso_idx: Vec<usize> = vec![];
+        for _ in 0..n_iso {
+            let mut p;
+            loop {
+                p = DVec3::new(r3.gen_range(0.02..0.98), r3.gen_range(0.02..0.98), r3.gen_range(0.02..0.98));
+                if (p - DVec3::splat(0.5)).abs().max_element() > 0.2 {
+                    break;
+                }
+            }
+            let at = r3.gen_range(0..=gens.len());
+            gens.insert(at, p);
+            for i in iso_idx.iter_mut() {
+                if *i >= at {
+                    *i += 1;
+                }
+            }
+            iso_idx.push(at);
+        }
+        let inp = FInput { id: inputs.len(), kind: "multiscale".into(), gens: vec![], anchor: DVec3::ZERO, width: DVec3::ONE, dim: 3, per: false };
+        match guarded(|| Voronoi::build(&gens, DVec3::ZERO, DVec3::ONE, Dimensionality::ThreeD, false)) {
+            Err(msg) => panics.push(json!({"input": inp.to_json(), "mask": Value::Null, "message": msg})),
+            Ok(v) => {
+                let total: f64 = v.cells().iter().map(|c| c.volume()).sum();
+                if (total - 1.0).abs() > 1e-9 {
+                    for prop in ["C02", "C16"] {
+                        failures.push(json!({"prop": prop, "what": "cell measures do not sum to the box measure (20 060 generators, multi-scale)",
+                            "detail": {"sum": total, "box": 1.0}, "input": inp.to_json(), "mask": Value::Null}));
+                    }
+                }
+                for &i in &iso_idx {
+                    let g = gens[i];
+                    let mut dmin = f64::INFINITY;
+                    for (j, q) in gens.iter().enumerate() {
+                        if j != i {
+                            dmin = dmin.min(g.distance(*q));
+                        }
+                    }
+                    let sr = v.cells()[i].safety_radius();
+                    if !(sr >= dmin * (1.0 - 1e-12)) {
+                        failures.push(json!({"prop": "C16", "what": "safety radius of an isolated generator is smaller than the distance to its nearest neighbour",
+                            "detail": {"cell": i, "safety_radius": sr, "nearest": dmin, "volume": v.cells()[i].volume()}, "input": inp.to_json(), "mask": Value::Null}));
+                        break;
+                    }
+                }
+                cells_total += gens.len();
             }
         }
     }
